@@ -400,6 +400,9 @@ Proof. unfold size, size_len. rewrite size_cmd_len_eq. reflexivity. Qed.
 Lemma size_checked_len_eq e : size_checked e = size_checked_len e (nlen (e_cmd e)).
 Proof. unfold size_checked, size_checked_len. rewrite <- size_len_eq. reflexivity. Qed.
 
+Lemma size_upper_limit_len_eq e : size_upper_limit e = size_upper_limit_len (nlen (e_cmd e)).
+Proof. reflexivity. Qed.
+
 Lemma encode_head_split e : e_cmd e <> [] ->
   encode e = encode_head e (nlen (e_cmd e)) ++ e_cmd e ++ [127].
 Proof.
